@@ -20,7 +20,7 @@ RULE = ("cases = every exported stepper class x supported D; per case all progra
         "execution observed by the tap")
 REQUIRED = {"jit_equals_eager": {"quick": 100, "thorough": 300}, "vmap_equals_loop": {"quick": 60, "thorough": 200}, "non_interference": {"quick": 60, "thorough": 200},
             "param_batch": {"quick": 150, "thorough": 400}, "rollout_nesting": {"quick": 150, "thorough": 500}, "traced_executions": {"quick": 100, "thorough": 300}}
-REQUIRED_TAPS = {"step:traced": 500}
+REQUIRED_TAPS = {"step:traced": 300}
 ASSUMPTIONS = ["union-typed parameters (velocity, diffusivity, dispersivity) are batched in their documented array form (D,), not as 0-d tracers",
                "float64 session; compiled vs eager agree to 1e-10 of the state scale, lanes are compared bit-exactly for non-interference"]
 TIMEOUT = {"quick": 2400, "thorough": 7200}
